@@ -13,7 +13,8 @@ Inductive query :=
 | QLevelize (order : res (list string)) (r : res (list (string * nat)))  (* order = list(c.topo_sort()) recorded before *)
 | QCyclic (r : bool)
 | QReconv (r : list string)
-| QKcuts (n : string) (k : nat) (ords : list (string * list string)) (r : res (list (list string))).
+| QKcuts (n : string) (k : nat) (ords : list (string * list string)) (r : res (list (list string)))
+| QFail (what : string).                                                (* a set-valued query raised an exception *)
 Inductive case := CQ (nodes : list (string * gtype * bool * list string)) (qs : list query).
 
 (* a Python set, reported as a sorted list *)
@@ -40,6 +41,7 @@ Definition agree_q (c : circuit) (q : query) : bool :=
   | QCyclic r => bool_decide (is_cyclic c = r)
   | QReconv r => seteq (reconvergent c) r
   | QKcuts n k ords r => bool_decide (kcuts c n k (qord_of ords) = rmap (fmap list_to_set) r)
+  | QFail _ => false
   end.
 Definition agree (k : case) : bool := match k with CQ nodes qs => let c := mk_g nodes in forallb (agree_q c) qs end.
 
@@ -81,5 +83,6 @@ Definition holds_q (c : circuit) (q : query) : bool :=
                    && bool_decide ([n] ∈ cuts)
       | _ => false
       end
+  | QFail _ => false
   end.
 Definition holds (k : case) : bool := match k with CQ nodes qs => let c := mk_g nodes in closedb c && forallb (holds_q c) qs end.
